@@ -645,6 +645,15 @@ class HTTPResponse(BaseHTTPResponse):
         if not self._pool or not self._connection:
             return None
 
+        if (
+            self._fp is not None
+            and not is_fp_closed(self._fp)
+            and self.length_remaining != 0
+        ):
+            # The rest of the body may still be on its way: the connection
+            # cannot carry another exchange.
+            self._connection.close()
+
         self._pool._put_conn(self._connection)
         self._connection = None
 
